@@ -5,7 +5,7 @@
    values of those outputs (Spec.identities_b etc.).  The accuracy part of the property is
    certified separately, one kernel-checked lemma per case and quantity (Cert.cert). *)
 From Coq Require Import PrimFloat Uint63 FloatOps SpecFloat ZArith List Bool QArith Qabs.
-From EsVerif.Common Require Import Base.
+From EsVerif.Common Require Import Base Bytes.
 From EsVerif.C11 Require Import Gen Model ModelF Spec.
 Import ListNotations.
 
@@ -120,6 +120,21 @@ Definition v_tables (cosv : oracle) (x w vx vw : list float) : Z :=
       verdict (flist_same x' x && flist_same w' w && flist_same vx' vx && flist_same vw' vw) true
   | None => 1
   end.
+
+(* ---------------------------------------------------------------- literal decoding of long arrays *)
+(* A long array argument / result is printed by the harness as a palette of bit patterns plus a hex string of
+   1-byte ([pal]) or 2-byte big-endian ([pal2]) palette indices per element (a list literal of 10^5 numerals
+   overflows Coq's parser).  This is literal printing only: the decoded [list Z] goes to the same verified
+   checker as a short array; an index outside the palette decodes to -1, which is no binary64 bit pattern. *)
+Definition pal (p : list Z) (s : String.string) : list Z :=
+  map (fun b => nth (Z.to_nat (bZ b)) p (-1)%Z) (unhex s).
+Fixpoint pairs_be (l : list Byte.byte) : list Z :=
+  match l with
+  | hi :: lo :: l' => (bZ hi * 256 + bZ lo)%Z :: pairs_be l'
+  | _ => []
+  end.
+Definition pal2 (p : list Z) (s : String.string) : list Z :=
+  map (fun i => nth (Z.to_nat i) p (-1)%Z) (pairs_be (unhex s)).
 
 (* ---------------------------------------------------------------- dispatch *)
 (* arguments and results are bit patterns of binary64 values; the scalar method is a finite table
